@@ -322,6 +322,26 @@ def stage_targeted(ctx: Ctx, progs):
         todo = [(r, n) for r in rects for n in FRAG_NEW]
         for rect, new in (todo if ctx.thorough else rng.sample(todo, min(len(todo), 40))):
             judge_edit(ctx, 'fragment', src, mode, rect, new)
+    # (1b) fragment roots with comments / empty lines around the node: edits inside that leading / trailing trivia (the incremental path reparses the root statement alone)
+    for mode, src in [('stmt', '#x\ny = 1'), ('stmt', '\n# x\nif a:\n  b\n# t\n'), ('stmt', '#x\n@d\ndef f(): pass  # t'), ('ExceptHandler', '#x\nexcept E: pass\n#t'), ('match_case', '\n#x\ncase 1: pass  # t\n'),
+                      ('expr', '#x\n(a,\n b)  # t'), ('stmt', 'y = 1\n#x'), ('pattern', '# x\n[a, b]'), ('_decorator_list', '#x\n@a\n#y\n@b'), ('arguments', 'a,  # x\nb')]:
+        try:
+            root = fst.FST(src, mode)
+        except Exception as e:
+            ctx.broken.append({'kind': 'harness', 'name': 'fragment-trivia', 'detail': f'{mode} {src!r}: {e!r}'[:200]})
+            continue
+        ls = src.split('\n')
+        rects = []
+        for i, l in enumerate(ls):
+            h = l.find('#')
+            if h >= 0:
+                rects += [(i, h, i, h + 1), (i, h, i, h), (i, h + 1, i, len(l)), (i, len(l), i, len(l))]
+            elif not l.strip():
+                rects += [(i, 0, i, 0)]
+        rects += [(0, 0, 0, 0), (len(ls) - 1, len(ls[-1]), len(ls) - 1, len(ls[-1]))]
+        for rect in sorted(set(rects)):
+            for new in ('', 'z', 'z;', 'z\n', '#z\n', '\n', ' ', '\\\n', 'pass\n', '@q\n'):
+                judge_edit(ctx, 'fragment-trivia', src, mode, rect, new)
     # (2) type comments
     for src in TC_PROGS:
         root = fst.FST(src, 'exec', type_comments=True)
